@@ -326,6 +326,14 @@ func (m *Monitors) Observe(idx int, r *Result) {
 		for i, id := range r.MsgIDs {
 			spec := op.Msgs[i]
 			m.pubs[id] = &pubRecord{n: spec.N, id: id, payload: string(payloadOf(spec)), attrs: spec.Attrs, key: spec.Key, t: now}
+			if stored := r.Msgs[id]; stored != nil {
+				if !jsonEqual(string(payloadOf(spec)), string(stored.Payload)) {
+					m.fire("C02", "payload", "message n=%d published as %s is stored as %s", spec.N, payloadOf(spec), stored.Payload)
+				}
+				if !attrsEqual(spec.Attrs, stored.Attributes) {
+					m.fire("C02", "attributes", "message n=%d published with attributes %v is stored with %v", spec.N, spec.Attrs, stored.Attributes)
+				}
+			}
 			if topic == nil {
 				continue
 			}
